@@ -384,6 +384,7 @@ func (e *Engine) batchFunction(fe *FuncEnc, obls []*Obl, header string, dir stri
 				sb.WriteString("(assert (not " + o.Goal.S + "))\n")
 			}
 			sb.WriteString("(check-sat)\n(pop)\n")
+
 			order = append(order, o)
 		}
 		if i < last {
@@ -392,11 +393,21 @@ func (e *Engine) batchFunction(fe *FuncEnc, obls []*Obl, header string, dir stri
 		}
 	}
 	file := filepath.Join(dir, fmt.Sprintf("batch_%s_%d.smt2", sanitize(fe.name), chunk))
-	os.WriteFile(file, []byte(sb.String()), 0o644)
+	text := sb.String()
+	if len(obls) > 0 && obls[0].ExpectSat {
+		// vacuity guards: without the quantified assumptions the queries are cheap, and a refutation is still a refutation
+		text = stripQuantified(text)
+	}
+	os.WriteFile(file, []byte(text), 0o644)
+	if os.Getenv("VERIF_KEEP") != "" {
+		os.WriteFile("/tmp/keep_"+filepath.Base(file), []byte(sb.String()), 0o644)
+	}
 	defer os.Remove(file)
 	start := time.Now()
 	budget := len(order)*perQueryMs/1000 + 20
-	r := runSolver(context.Background(), solverZ3New, file, budget)
+	sp := solverZ3New
+	sp.args = func(t int) []string { return []string{fmt.Sprintf("-T:%d", t), fmt.Sprintf("-t:%d", perQueryMs)} }
+	r := runSolver(context.Background(), sp, file, budget)
 	secs := time.Since(start).Seconds()
 	lines := strings.Split(strings.TrimSpace(r.out), "\n")
 	k := 0
